@@ -293,6 +293,57 @@ def make_patterns(P):
     return h
 
 
+def make_step(P):
+    import bluesky.plan_stubs as bps
+
+    symnp.selftest()
+
+    def h(p1: Real, p2: Real, c1: Real, c2: Real, has1: bool, has2: bool, two: bool) -> str:
+        M1, M2 = Motor("m1"), Motor("m2")
+        motors = [M1, M2] if fork_bool(two) else [M1]
+        step = dict(zip(motors, [p1, p2]))
+        cache = {M1: c1 if fork_bool(has1) else None, M2: c2 if fork_bool(has2) else None}
+        before = dict(cache)
+        with symnp.installed(bps):
+            msgs = list(bps.move_per_step(step, cache))
+        if not msgs or msgs[0].command != "checkpoint":
+            return "move_per_step:no-checkpoint-before-the-point"
+        if msgs[-1].command != "wait":
+            return "move_per_step:no-wait-after-the-sets"
+        sets = {m.obj: m.args[0] for m in msgs if m.command == "set"}
+        for mot in motors:
+            already = before[mot] is not None and before[mot] == step[mot]
+            if already:
+                goal("already-there")
+                if mot in sets:
+                    return "move_per_step:redundant-set"  # harmless for the trajectory, but not what the cache is for
+            else:
+                goal("moved")
+                if mot not in sets:
+                    return "move_per_step:motor-not-sent-to-the-point-although-it-is-elsewhere"
+                if sets[mot] != step[mot]:
+                    return "move_per_step:set-to-a-different-position"
+            if cache[mot] != step[mot]:
+                return "move_per_step:position-cache-not-updated"
+        if any(m.obj not in motors for m in msgs if m.command == "set"):
+            return "move_per_step:set-on-a-motor-that-is-not-part-of-the-step"
+        return ""
+
+    return h
+
+
+def _fns_s():
+    import bluesky.plan_stubs as bps
+
+    return [bps.move_per_step]
+
+
+register(Harness("c25_step", "C25", make_step, {"quick": dict(shards=1, budget_s=120, per_path_s=30), "thorough": dict(shards=1, budget_s=600, per_path_s=60)},
+                 goals=["already-there", "moved"], functions=_fns_s, mode="traced", float_model="real", opaque_text=True,
+                 symbolic="one or two motors; the requested positions and the cached last-set positions are symbolic reals; each cache entry present or None",
+                 out_of_bound="non-numeric positions (strings, pseudo-positioner tuples)", stubs="numpy (if plan_stubs uses it) replaced by vlib/symnp.py", require_exhaustive=True))
+
+
 def _fns_p():
     import bluesky.plan_patterns as pp
 
